@@ -14,8 +14,12 @@ Inductive case07 :=
        observed content (ids, annotations, emptiness, tags) after the last step that returned no error *)
 | CStrip (bm : list string) (a : annmap) (observed : annmap)
     (* RemoveBuildAnnotations / RemoveOriginAnnotations / RemoveTransformerAnnotations as krusty.Run calls them *)
-| CTable (runtime_build_annotations : list string).
+| CTable (runtime_build_annotations : list string)
     (* runtime value of the translated table resource.BuildAnnotations *)
+| CFinal (h : list (string * string)) (legacy : bool) (bm : list string) (m : rmap)
+         (cls : oclass) (out : list (resid * annmap)).
+    (* the tail of a real build: [m] is the accumulated map observed through the hook (KustTarget.AccumulateTarget),
+       [cls]/[out] what krusty.Run returned for the same tree: ids and annotations of the output in order *)
 
 Fixpoint str_list_eqb (a b : list string) : bool :=
   match a, b with
@@ -72,11 +76,23 @@ Fixpoint trace_steps (m : rmap) (steps : list step07) : list (oclass * rmap) :=
       end
   end.
 
+Fixpoint out_eqb (m : rmap) (out : list (resid * annmap)) : bool :=
+  match m, out with
+  | [], [] => true
+  | x :: m', (i, a) :: out' => id_same (cur x) i && ann_eqb (m_ann x) a && out_eqb m' out'
+  | _, _ => false
+  end.
+
 Definition agree07 (c : case07) : bool :=
   match c with
   | CSeq init steps final => agree_steps init steps final
   | CStrip bm a obs => ann_eqb (strip_run bm a) obs
   | CTable ba => str_list_eqb (map snd gen_build_annotations) ba
+  | CFinal h legacy bm m cls out =>
+      match finalize h legacy bm m with
+      | Ok m' => oclass_eqb cls COk && out_eqb m' out
+      | r => oclass_eqb cls (class_of r)
+      end
   end.
 
 Definition mismatches07 (l : list case07) : list N := mism_from agree07 0%N l.
